@@ -42,7 +42,8 @@ class Contract(object):
                  cases=None, name=None, consts=None, dict_model=None, inline=False, pure=False, lemmas=(),
                  ghost=None, notes="", trusted=False, unfold=None, assume_post=(), raises_frame="havoc",
                  exc_ensures=None, self_class=None, kwargs=None, defaults=None, statics=None, max_paths=4000,
-                 old_names=None, qualkey=None, result_alias=None, on_abandon=(), upstream_raises=False, at_call=None, closure=None):
+                 old_names=None, qualkey=None, result_alias=None, on_abandon=(), upstream_raises=False, at_call=None, closure=None,
+                 vararg=None, kwarg=None):
         self.file, self.qual, self.props = file, qual, list(props)
         self.params = dict(params or {})
         self.result = result
@@ -78,6 +79,7 @@ class Contract(object):
         self.on_abandon = list(on_abandon)       # clauses that hold when the generator is abandoned at a yield
         self.upstream_raises = upstream_raises   # explore: pulling from the input flow raises
         self.result_alias = result_alias     # the function returns this parameter itself (same object)
+        self.vararg, self.kwarg = vararg, kwarg   # names of the *args / **kwargs parameters (typed Tuple[...] / KwDict[k:T,...])
 
     @property
     def key(self):
@@ -333,6 +335,8 @@ class World(object):
                     if f2 and attr in self.modctx(f2).names:
                         return self.module_attr(base, attr, interp)
         # stdlib / third-party
+        if any(isinstance(k, tuple) and k[0] == modname + "." + attr for k in interp.contracts.lib):
+            return Module(modname + "." + attr)          # a stdlib sub-module with library contracts (os.path)
         lib = interp.contracts.lib.get((modname, attr)) or interp.contracts.lib.get(attr)
         if lib is not None:
             return Fun("lib", name=attr, mod=modname, impl=lib)
